@@ -16,4 +16,6 @@ FLOORS = {"quick": (300, 40), "thorough": (20000, 400)}
 
 
 def run(tier, seed, replay):
+    if replay:
+        FLOORS[tier] = (1, 1)  # a replay re-executes one case
     return cguest.run_check("C10", "c10", tier, seed, replay, resources=False)
